@@ -46,7 +46,7 @@ PROPS = {
         'trusted': ['hand-written interaction-tree model of Process/redirectToIDP/retrieveTokens/refreshToken (AuthModel/Oidc/Handler.lean), tied to the code by the differential run (response + ordered action trace per request line)', 'oracles: jwt parsing and claims (jwx), JWS verification (checked against an independent stdlib RSA verification in the harness), SHA-256/base64url; url.Parse of the callback URI', 'signature soundness of jwx/crypto is trusted; the key set is an oracle'],
     },
     'C05': {
-        'theorems': ['redirect_renews', 'writes_only_under_issued', 'cookie_name_host_prefix', 'set_cookie_shape', 'directives_match_source', 'name_parts_match_source', 'logout_expires_cookie'],
+        'theorems': ['redirect_renews', 'writes_only_under_issued', 'cookie_name_host_prefix', 'cookie_name_is_token', 'set_cookie_shape', 'directives_match_source', 'name_parts_match_source', 'logout_expires_cookie'],
         'trusted': ['hand-written interaction-tree model of Process/redirectToIDP/retrieveTokens/refreshToken (AuthModel/Oidc/Handler.lean), tied to the code by the differential run (response + ordered action trace per request line)', 'oracles: jwt parsing and claims (jwx), JWS verification (checked against an independent stdlib RSA verification in the harness), SHA-256/base64url; url.Parse of the callback URI', 'generator freshness (new id differs from the presented one) is a property of the entropy source (C06)'],
     },
     'C11': {
